@@ -230,7 +230,7 @@ def remove_types_slots(R, ctx, rid, rule, fam, fam_v, touched_v, vt, cb, d):
                 R.ob(rid, key + "|cleared", bool(w), ctx.adt_where(adt),
                      ("cleared in %s" % w[0][0]) if w else "type-syntax slot `%s` of `%s` (type %s) is never cleared by remove_types" % (name, adt, lib.ty_str(ty)))
                 # the struct must be reachable from a callback of its own kind or be cleared through its holder
-    R.require(rid, "%s|floor:type-syntax-slots" % rule, n >= 14, "", "%d type-syntax slots outside type nodes (floor 14)" % n)
+    R.require(rid, "%s|floor:type-syntax-slots" % rule, n >= 12, "", "%d type-syntax slots outside type nodes (floor 12)" % n)
 
 
 def pair(R, ctx):
@@ -388,7 +388,7 @@ def always(R, ctx):
         bad = [r for r in cfg.returns() if r in reach]
         name = f["path"].split(" as ")[0].split("::")[-1]
         R.ob(rid, name, not bad, ctx.where(f), "a return is reachable without any traversal: occurrences are left in place on that path" if bad else "every path walks the tree (%d driver call(s))" % len(dr))
-    R.require(rid, "floor", n >= 30, "", "%d rules with a traversal (floor 30)" % n)
+    R.require(rid, "floor", n >= 26, "", "%d rules with a traversal (floor 26)" % n)
 
 
 def run(R, ctx):
